@@ -95,3 +95,26 @@ pub proof fn lemma_split_independent(f1: Seq<BatchV>, f2: Seq<BatchV>, lo: int, 
     requires flat(f1) == flat(f2),
     ensures slice_of(flat(f1), lo, hi) == slice_of(flat(f2), lo, hi),
 {}
+
+// ---- LINK harnesses: the contracts other units ASSUME for functions proved here, proved from the real ones ---------------------
+// Each harness has the assuming unit's stub signature, its `requires` / `ensures` copied VERBATIM from that unit's prelude.rs, and a
+// body that is ONE call of the real extracted function: Verus proves "real contract ==> assumed contract" on every run.
+// A later edit of a stub has to be mirrored here (and vice versa).
+impl Segment {
+    // copied from units/read_segment/prelude.rs, stub `Segment::load_messages_from_disk` (seq_keep / off_in / slice_of here are
+    // vx/prelude/slices.rs, verbatim copies of read_segment's prelude; flat / seg_disk are vx/prelude/segview.rs in both)
+    // label: C02.link.read_segment.load_messages_from_disk
+    pub fn link_read_segment_load_messages_from_disk(&self, start_offset: u64, end_offset: u64) -> (r: Result<Vec<RetainedMessage>, IggyError>)
+        requires start_offset >= self.start_offset,
+            disk_tier_wf(self),
+            // the relative START offset fits the index's u32 (`(start_offset - self.start_offset) as u32` would truncate)
+            start_offset - self.start_offset <= u32::MAX,
+            // F12 (DESIGN §8): the capacity hint `(start_offset + end_offset + 1) as usize` of load_messages_from_segment_file
+            start_offset + end_offset + 1 <= u64::MAX,
+        ensures r is Ok ==> r->Ok_0@ == slice_of(flat(seg_disk(self)), start_offset as int, end_offset as int),
+    {
+        self.load_messages_from_disk(start_offset, end_offset)
+    }
+}
+// The name under which units read_segment / read_partition carry this unit's reading invariant (uninterpreted there): it IS rd_wf.
+pub open spec fn disk_tier_wf(s: &Segment) -> bool { rd_wf(s) }
